@@ -1,15 +1,16 @@
 (* CasesMercReport.v — evaluation of the `mercreport` projection: MercuryPlugin.Report of v1..v4 with a recording
    codec, single rounds and threaded histories (each emitted report becomes the next round's previous report). *)
-From DS Require Import Base Sort MercuryAgg Config MercuryReport.
+From DS Require Import Base Sort MercuryAgg Config MercuryReport MercuryWire.
 
 Record mround := {
   rd_prev : option (res Z);                    (* what the codec extracts from the previous report *)
   rd_replen : res nat;                         (* codec BuildReport behaviour this round: length or error *)
   rd_obs : list (option mobs * bool);          (* decoded observation message (None: undecodable bytes); honest? *)
+  rd_raw : list bytes;                         (* the observation bytes handed to Report, same order *)
   rd_out : res (bool * option fields234);      (* implementation: shouldReport, fields handed to BuildReport *)
   rd_stable : bool }.                          (* repeated evaluation on fresh plugins gave the same result *)
 Record mround1 := {
-  r1d_prev : option (res Z); r1d_replen : res nat; r1d_obs : list (option mobs1 * bool);
+  r1d_prev : option (res Z); r1d_replen : res nat; r1d_obs : list (option mobs1 * bool); r1d_raw : list bytes;
   r1d_out : res (bool * option fields1); r1d_stable : bool }.
 
 Inductive merc_case :=
@@ -33,9 +34,29 @@ Definition out_eqb {F} (feqb : F -> F -> bool) (m i : res (bool * option F)) : b
 Fixpoint omap' {A B} (f : A -> option B) (l : list A) : list B :=
   match l with [] => [] | x :: r => match f x with Some y => y :: omap' f r | None => omap' f r end end.
 
+Definition mobs_eqb (a b : mobs) : bool :=
+  (mo_ts a =? mo_ts b) && Bool.eqb (mo_prices_valid a) (mo_prices_valid b) && bytes_eqb (mo_bm a) (mo_bm b) &&
+  bytes_eqb (mo_bid a) (mo_bid b) && bytes_eqb (mo_ask a) (mo_ask b) && Bool.eqb (mo_mfts_valid a) (mo_mfts_valid b) &&
+  (mo_mfts a =? mo_mfts b) && Bool.eqb (mo_link_valid a) (mo_link_valid b) && bytes_eqb (mo_link a) (mo_link b) &&
+  Bool.eqb (mo_native_valid a) (mo_native_valid b) && bytes_eqb (mo_native a) (mo_native b) &&
+  Bool.eqb (mo_status_valid a) (mo_status_valid b) && (mo_status a =? mo_status b).
+Definition mobs1_eqb (a b : mobs1) : bool :=
+  (m1_ts a =? m1_ts b) && Bool.eqb (m1_prices_valid a) (m1_prices_valid b) && bytes_eqb (m1_bm a) (m1_bm b) &&
+  bytes_eqb (m1_bid a) (m1_bid b) && bytes_eqb (m1_ask a) (m1_ask b) && list_eqb block_eqb (m1_blocks a) (m1_blocks b) &&
+  Bool.eqb (m1_cur_valid a) (m1_cur_valid b) && block_eqb (m1_cur a) (m1_cur b) &&
+  Bool.eqb (m1_mfb_valid a) (m1_mfb_valid b) && (m1_mfb a =? m1_mfb b).
+Fixpoint all2 {A B} (f : A -> B -> bool) (a : list A) (b : list B) : bool :=
+  match a, b with [], [] => true | x :: a', y :: b' => f x y && all2 f a' b' | _, _ => false end.
+(* the byte-level decoders reproduce what proto.Unmarshal delivered for every observation of the round *)
+Definition raw_agrees234 (ver : Z) (r : mround) : bool :=
+  all2 (fun raw o => option_eqb mobs_eqb (merc_decode234 ver raw) (fst o)) (rd_raw r) (rd_obs r).
+Definition raw_agrees1 (r : mround1) : bool :=
+  all2 (fun raw o => option_eqb mobs1_eqb (merc_decode1 raw) (fst o)) (r1d_raw r) (r1d_obs r).
 Definition round_agrees (ver : Z) (c : mcfg) (r : mround) : bool :=
+  raw_agrees234 ver r &&
   out_eqb fields_eqb (report234 ver c (rd_prev r) (fun _ => rd_replen r) (omap' fst (rd_obs r))) (rd_out r).
 Definition round1_agrees (c : mcfg) (r : mround1) : bool :=
+  raw_agrees1 r &&
   out_eqb fields1_eqb (report1 c (r1d_prev r) (fun _ => r1d_replen r) (omap' fst (r1d_obs r))) (r1d_out r).
 
 (* ---- C07 on the fields the implementation handed to BuildReport ---- *)
